@@ -125,6 +125,21 @@ func failingOp(c c13Case) (obs, bad string) {
 
 func c13(r *ev.Run) {
 	r.Scenario("failing-op", func(raw []byte) (string, string) { return failingOp(unjson[c13Case](raw)) })
+	r.Scenario("rest-error-body", func(raw []byte) (string, string) {
+		q := unjson[rreq](raw)
+		resp := restDo(nil, q.Method, q.uri(), q.body())
+		sct, _ := fstr(q.Fields, "secret")
+		_, key := ref.B32Classify(strings.TrimSuffix(sct, "!"))
+		if resp.Status >= 400 {
+			if l := leaks(resp.Body, sct, key, nil); l != "" {
+				return trunc80(resp.Body), "error body discloses " + l
+			}
+			if st := strings.ToLower(strings.TrimSpace(sct)); len(st) >= 8 && strings.Contains(strings.ToLower(resp.Body), st) {
+				return trunc80(resp.Body), "error body echoes the submitted secret"
+			}
+		}
+		return trunc80(resp.Body), ""
+	})
 	c03(r, true)
 	c04(r, true)
 	c06(r, true)
@@ -152,6 +167,41 @@ func c13(r *ev.Run) {
 			r.DistinctS(op + obs)
 		}
 	}
+	// REST error bodies are error reports too: failing requests must not echo the secret or an accepted code
+	restInit13()
+	for _, sct := range secs {
+		_, key := ref.B32Classify(sct)
+		for _, q := range []rreq{
+			{Method: "POST", Path: "/hotp/generate", Fields: map[string]any{"secret": sct + "!", "counter": 1}},
+			{Method: "POST", Path: "/totp/generate", Fields: map[string]any{"secret": sct + "!", "timestamp": 59}},
+			{Method: "POST", Path: "/ocra/generate", Fields: map[string]any{"secret": sct, "raw_suite": "OCRA-1:HOTP-SHA1-6:QN08", "input": map[string]any{"challenge_hex": "00"}}},
+			{Method: "POST", Path: "/ocra/generate", Fields: map[string]any{"secret": sct + "!", "raw_suite": "OCRA-1:HOTP-SHA1-6:QN08", "input": map[string]any{"challenge_hex": "3132333435363738"}}},
+			{Method: "POST", Path: "/ocra/generate", Fields: map[string]any{"secret": sct, "raw_suite": "nonsense", "input": map[string]any{}}},
+			{Method: "POST", Path: "/otp/url", Fields: map[string]any{"type": "xotp", "secret": sct, "issuer": "I", "account_name": "a"}},
+			{Method: "POST", Path: "/otp/url", Fields: map[string]any{"type": "totp", "secret": sct, "issuer": " ", "account_name": "a"}},
+			{Method: "PUT", Path: "/hotp/validate", Fields: map[string]any{"secret": sct, "code": "123456"}},
+			{Method: "POST", Path: "/hotp/validate", Fields: map[string]any{"secret": sct, "code": " "}},
+			{Method: "POST", Path: "/totp/validate", Raw: strPtr(`{"secret":"` + strings.TrimSpace(sct) + `","code":"123456","skew":"x"}`)},
+		} {
+			resp := restDo(nil, q.Method, q.uri(), q.body())
+			n++
+			if resp.Status < 400 {
+				continue
+			}
+			var accepted []string
+			if key != nil {
+				accepted = []string{ref.HOTP(key, 1, 6, 0), ref.HOTP(key, ref.Step(59, 30), 6, 0)}
+			}
+			body := resp.Body
+			if l := leaks(body, sct, key, accepted); l != "" && q.Path != "/otp/url" {
+				r.Fail("rest-error-body", q.Path+": error body discloses "+l, q, "no secret / accepted code in an error response", trunc80(body))
+			}
+			if st := strings.ToLower(strings.TrimSpace(sct)); len(st) >= 8 && strings.Contains(strings.ToLower(body), st) && q.Path != "/otp/url" {
+				r.Fail("rest-error-body", q.Path+": error body echoes the submitted secret", q, "no secret in an error response", trunc80(body))
+			}
+			r.DistinctS(q.Path + fmt.Sprint(resp.Status))
+		}
+	}
 	r.Eval(n)
 	r.Set("failing_ops", len(ops))
 	r.Set("distinct_error_texts", len(errs))
@@ -161,3 +211,7 @@ func c13(r *ev.Run) {
 	r.Rule(fmt.Sprintf("every validator call of the C03, C04 and C06 enumerations (accepting and rejecting, every failure cause) checked for the (bool, error) pair shape and for disclosure of the secret (base32 any case / raw / hex) or of an accepted code of >= 6 digits in the error text; %d other failing operations x %d secret spellings (valid and malformed) checked for disclosure; distinct = distinct (case, outcome) tuples", len(ops), len(secs)))
 	r.Assume("an error text is inspected as a string; wrapped errors are covered through Error()")
 }
+
+func strPtr(s string) *string { return &s }
+
+func restInit13() { restHandler() }
